@@ -214,6 +214,15 @@ class SymCtx(BaseCtx):
     def rng_normal(self, loc, scale):
         return self.E.fresh_real("normal")
 
+    def env_value(self, name):
+        return self.E.fresh_real("env:" + name)
+
+    def env_int(self, name):
+        return self.E.fresh_int("env:" + name)
+
+    def forks_so_far(self):
+        return len(self.E.alts)
+
     # ---- assertions
     def _inputs_from_model(self, m):
         out = []
@@ -532,6 +541,16 @@ class ConcCtx(BaseCtx):
 
     def rng_normal(self, loc, scale):
         return self._num(self._next("real"))
+
+    def env_value(self, name):
+        return self._num(self._next("real"))
+
+    def env_int(self, name):
+        v = self._next("int")
+        return int(Fraction(int(v[0]), int(v[1])))
+
+    def forks_so_far(self):
+        return 0
 
     # ---- assertions: evaluated in float arithmetic
     def _exception(self, label, ex):
